@@ -11,7 +11,7 @@ MU0 = 4 * np.pi * 1e-7
 
 def residuals(q):
     """dict name -> (max |residual|, scale)"""
-    D = lambda f: q.d_d_varphi @ f
+    D = lambda f: dvarphi_indep(q, f)
     sG, spsi, B0, G0, I2, p2 = q.sG, q.spsi, q.B0, q.G0, q.I2, q.p2
     lp = abs(G0) / B0
     k, t, s, eta, iN = q.curvature, q.torsion, q.sigma, q.etabar, q.iotaN
